@@ -6,7 +6,7 @@ EventID(), VerifyJSON / VerifyEventSignatures.
 spec -> code: a really built and signed event of every shape and room version is tampered with on the wire by every
 enumerated subset T of {change / add a content key outside the keep-list, change a kept content key, change content.third_party_invite.signed, add a top-level
 key, change origin, change depth, change unsigned, add age_ts, add outlier + destinations, set event_id} x hash mode
-{kept, garbage, re-hashed by the forger, removed}, parsed as untrusted JSON and compared with the specification.
+{kept, garbage, re-hashed by the forger, removed, a second algorithm entry added next to sha256}, parsed as untrusted JSON and compared with the specification.
 code -> spec: seeded random tamperings of random events, re-derived by EventIdentity_trace.tla."""
 from checks.c03 import record_and_validate
 from vlib.core import MachineryError
@@ -28,7 +28,7 @@ def run(ctx):
     ctx.exhaustive = True
     ctx.notes["rule"] = (
         "every behaviour of the tamper family of EventIdentity.tla: 16 room versions x 12 event shapes x optional "
-        "operation before (%s; after a Redact() only tamper sets of at most one element) x tamper sets of at most %d or at least all-but-one applicable elements out of 11 x 4 "
+        "operation before (%s; after a Redact() only tamper sets of at most one element) x tamper sets of at most %d or at least all-but-one applicable elements out of 11 x 5 "
         "hash modes; distinct = distinct (ID format, redaction algorithm, type, tamper set, hash mode, redacted, "
         "same-ID, valid signatures)" % (("none / second signature / Redact", 2) if ctx.tier == "quick"
                                          else ("none / second signature / SetUnsigned / Redact", 3)))
